@@ -246,6 +246,22 @@
 #![allow(clippy::redundant_closure_for_method_calls)] // Sometimes clearer
 #![allow(clippy::manual_instant_elapsed)] // Direct subtraction can be clearer
 
+/// Scheduling point for the model-checking harness; expands to nothing unless the
+/// `verif-hooks` feature is on.
+#[cfg(feature = "verif-hooks")]
+macro_rules! vp_sched {
+    ($site:expr) => {
+        $crate::verif_hooks::sched_point($site)
+    };
+}
+#[cfg(not(feature = "verif-hooks"))]
+macro_rules! vp_sched {
+    ($site:expr) => {};
+}
+
+#[cfg(feature = "verif-hooks")]
+pub mod verif_hooks;
+
 // ============================================================================
 // Platform-independent modules (available on all platforms)
 // ============================================================================
